@@ -1,6 +1,9 @@
 """C18 -- secp256k1 point arithmetic equals the textbook group law."""
+from .. import constants, grouptrace
 from . import c07
 
 
 def run(ctx):
+    constants.check_constants(ctx, ("secp",))
+    grouptrace.run_traces(ctx, ["secp"])        # full size: dlog tracking mod N (BigNat), negative and 512-bit scalars
     c07.curve_tables(ctx, secp=True, name="CurveTable_secp")
